@@ -601,7 +601,9 @@ def nontrivial(prop, h):
         nil = stp["R"][0] == "nil"
         flags = int(op[4])
         if prop == "C09" and not nil:
-            kinds.add(stp["R"][1])
+            # the kind of refusal, from the history itself and the errno class (never from message text)
+            kinds.add("invalid-policy" if op[5] in ("invalid", "nodefault") else
+                      ("refused-thread-sync" if stp["R"][1] == "OTHER" and flags & TSYNC else stp["R"][1]))
         if prop == "C09" and nil and flags & TSYNC and len(stp["T"]) > 1:
             kinds.add("tsync-ok")
         if prop == "C10" and len(h["K"]) >= 2:
